@@ -128,6 +128,13 @@ Theorem C24_divide_panic_iff :
 Proof. exact divide_panic_iff. Qed.
 Print Assumptions C24_divide_panic_iff.
 
+(** on integer-variant operands [/] never panics (it returns a NUMERIC, an integer, or NULL) *)
+Theorem C24_divide_int_no_panic :
+  forall (m : sqlmode) (l r : sqlvalue) (a b : Z) (x : panic),
+    to_Z l = Some a -> to_Z r = Some b -> divide m l r <> Panic x.
+Proof. exact divide_int_no_panic. Qed.
+Print Assumptions C24_divide_int_no_panic.
+
 Theorem C24_divide_no_panic_refuted :
   divide MySQL (VFloat 1069547520) (VInteger 2) = Panic PUnreachable /\
   divide SQLite (VBoolean true) (VNumeric 4609434218613702656) = Panic PUnreachable.
@@ -203,6 +210,28 @@ Theorem C24_sum_no_wrap_refuted :
 Proof. exact sum_no_wrap_refuted. Qed.
 Print Assumptions C24_sum_no_wrap_refuted.
 
+(** AVG over an integer column: same accumulation, one f64 division at the end *)
+Theorem C24_avg_no_wrap :
+  forall (temporal : bool -> sqlvalue -> sqlvalue -> res sqlvalue) (p : profile) (vs : list sqlvalue),
+    int_col vs = true -> Z.of_nat (length vs) < 2 ^ 63 -> prefixes_fit 0 (ints_of vs) = true ->
+    agg_avg temporal p false vs =
+    Ok match ints_of vs with
+       | [] => VNull
+       | zs => VNumeric (fdiv b64 (f_of_Z b64 (zsum zs)) (f_of_Z b64 (Z.of_nat (length zs))))
+       end.
+Proof. exact avg_no_wrap. Qed.
+Print Assumptions C24_avg_no_wrap.
+
+Theorem C24_avg_debug_exact :
+  forall (temporal : bool -> sqlvalue -> sqlvalue -> res sqlvalue) (vs : list sqlvalue) (v : sqlvalue),
+    int_col vs = true -> agg_avg temporal Debug false vs = Ok v ->
+    v = match ints_of vs with
+        | [] => VNull
+        | zs => VNumeric (fdiv b64 (f_of_Z b64 (zsum zs)) (f_of_Z b64 (Z.of_nat (length zs))))
+        end.
+Proof. exact avg_debug_exact. Qed.
+Print Assumptions C24_avg_debug_exact.
+
 (** partial sums of non-negative terms are monotone: the total alone decides *)
 Theorem C24_prefixes_fit_nonneg :
   forall (s : Z) (zs : list Z),
@@ -253,6 +282,22 @@ Theorem C24_simd_aggregate_refuted :
   simd_aggregate_i64 Release 1024 AggSum [VInteger i64_max; VInteger 1] = Ok (VDouble 14114281232179134464).
 Proof. exact simd_aggregate_refuted. Qed.
 Print Assumptions C24_simd_aggregate_refuted.
+
+(** the floating-point paths of the columnar SUM/AVG never panic; every panic of a columnar SUM/AVG is
+    an overflow of the i64 path (chosen when the first non-NULL value of the first 100 rows is an integer) *)
+Theorem C24_simd_aggregate_f64_no_panic :
+  forall (p : profile) (bsize : nat) (op : aggop) (vs : list sqlvalue) (x : panic),
+    Z.of_nat (length vs) < 2 ^ 63 -> simd_aggregate_f64 p bsize op vs <> Panic x.
+Proof. exact simd_aggregate_f64_no_panic. Qed.
+Print Assumptions C24_simd_aggregate_f64_no_panic.
+
+Theorem C24_columnar_aggregate_panic_only_i64_path :
+  forall (p : profile) (bsize : nat) (op : aggop) (vs : list sqlvalue) (x : panic),
+    Z.of_nat (length vs) < 2 ^ 63 ->
+    columnar_aggregate p bsize op vs = Panic x ->
+    can_use_simd 100 vs = Some true /\ simd_aggregate_i64 p bsize op vs = Panic x.
+Proof. exact columnar_aggregate_panic_only_i64_path. Qed.
+Print Assumptions C24_columnar_aggregate_panic_only_i64_path.
 
 (** * SUBSTRING *)
 (** for any text, start and length the index arithmetic cannot overflow [usize] and the slice is in
